@@ -39,6 +39,7 @@ F_DELIVERY = "C11-delivery-enum"
 F_MXTAXID = "C11-mx-taxid-chars"
 F_REGIME = "C11-regime-unchecked"
 F_NULLELEM = "C11-null-list-element"
+F_CATALOGUE = "C11-catalogue-def-not-validated"
 F_NILSLICE = "C11-nil-slice-null"
 F_UNVALIDATED = "C11-field-not-validated"
 
@@ -464,6 +465,9 @@ def classify(e, inst, sid):
         if isinstance(tid, dict) and tid.get("country") == "MX" and isinstance(val, str) and re.search("[&Ñ]", val) \
                 and re.fullmatch("[A-ZÑ&0-9]+", val):
             return F_MXTAXID
+    # C11-catalogue-def-not-validated: tax.CatalogueDef has no Validate method
+    if sid == GOBL + "tax/catalogue-def" and (not at or at[0] in ("key", "name", "description", "extensions")):
+        return F_CATALOGUE
     # C11-regime-unchecked (DESIGN section 8 #24): $regime is never checked by the library
     if at and at[-1] == "$regime" and isinstance(val, str):
         return F_REGIME
@@ -803,6 +807,22 @@ def run(c):
         if doc_of(env) is not None:
             items.append(("example-doc:" + name, doc_of(env)))
     judge(c, "examples", items, state)
+    # rich synthetic documents: every member of every registered type populated (harness/c14rich.go), repaired by name rules
+    # into documents the library accepts (tools/lib/richvalid.py) - the examples leave most optional members of most types unused
+    import richvalid
+    richdir = os.path.join(WORK, "c14rich")
+    subprocess.run([os.path.join(BIN, "vharness"), "c14rich", richdir], stdout=subprocess.PIPE, stderr=subprocess.PIPE, env=GOENV)
+    ritems = []
+    for f in sorted(glob.glob(os.path.join(richdir, "rich-*.json"))):
+        try:
+            d = json.load(open(f))
+        except ValueError:
+            continue
+        if "+" in os.path.basename(f):
+            continue
+        ritems.append(("rich:" + os.path.basename(f), richvalid.make_valid(d)))
+    judge(c, "rich", ritems, state)
+    c.cov["rich_documents"] = len(ritems)
     for name, env in ex[:2]:
         c.sample({"stream": "examples", "file": name, "schema": (doc_of(env) or {}).get("$schema")}, limit=2)
 
